@@ -97,9 +97,9 @@ def run_fault(cfg, source, k, n, twin, prefix=None, folder=False, sleep_at=None)
     rl = "scheduler" in cfg
     source, _, flavour = source.partition(":")   # "loss:stop" = the loss raises a StopIteration, "sampler:exit" = a SystemExit, ...
     flavour = flavour or None
-    models.reset(fault_at=k if source in ("model", "interrupt") else None, interrupt="stop" if (source == "model" and flavour == "stop") else source == "interrupt")
+    models.reset(fault_at=k if source in ("model", "interrupt") else None, interrupt=flavour if (source == "model" and flavour in ("stop", "value", "lookup", "os")) else source == "interrupt")
     rec = C.Recorder(fault={source: k, "exc": flavour} if source in ("loss", "sampler") else None)
-    expected = (models.InjectedModelStop if flavour == "stop" else models.InjectedModelFault) if source == "model" else models.InjectedModelInterrupt if source == "interrupt" else C.FLAVOURS[flavour]
+    expected = (models.InjectedModelStop if flavour == "stop" else models.MODEL_FLAVOURS[flavour] if flavour in models.MODEL_FLAVOURS else models.InjectedModelFault) if source == "model" else models.InjectedModelInterrupt if source == "interrupt" else C.FLAVOURS[flavour]
     before = set(threading.enumerate())
     out = {}
     with C.scratch() as tmp:
@@ -350,7 +350,9 @@ def main(ctx):
     sampler_faults = [("sampler", k) for k in range(n + 2)]
     interrupts = [("interrupt", k) for k in range(0, n * calls_per_batch, 2)]
     # other kinds of exception out of user code: StopIteration (swallowed by any lazy iteration around the call), SystemExit
-    flavoured = [(f"{src}:{fl}", k) for fl in ("stop", "exit") for src, ks in (("loss", range(n * 2)), ("sampler", range(n)), ("model", range(0, n * calls_per_batch, 2))) for k in ks if not (src == "model" and fl == "exit")]
+    flavoured = [(f"{src}:{fl}", k) for fl in ("value", "lookup", "os") for src, ks in (("loss", range(0, n * 2, 2)), ("sampler", range(n)), ("model", range(0, n * calls_per_batch, 3)))
+                 for k in ks]
+    flavoured += [(f"{src}:{fl}", k) for fl in ("stop", "exit") for src, ks in (("loss", range(n * 2)), ("sampler", range(n)), ("model", range(0, n * calls_per_batch, 2))) for k in ks if not (src == "model" and fl == "exit")]
     allf = model_faults + loss_faults + sampler_faults + interrupts + flavoured
     for folder in (False, True):
         for i in range(0, len(allf), 6):
